@@ -53,7 +53,8 @@ TCmd ==
           /\ Cmd(Ev.t, VerbOf(toks[1]), Ints(Tail(toks)))
           /\ Tag("C09.indication-outside-tick", NoClckOut)
           /\ Tag("C05.exactly-one-reply", Len(Ev.outs) = 1 /\ Ev.exc = "")
-          /\ Tag("C05.reply-to-sender", Ev.outs[1].kind = "ctrl" /\ Ev.outs[1].t = Ev.t /\ Ev.outs[1].port = Ev.rport)
+          /\ Tag("C05.reply-to-sender", Ev.outs[1].kind = "ctrl" /\ Ev.outs[1].t = Ev.t /\ Ev.outs[1].port = Ev.rport
+                                           /\ ("rhost" \in DOMAIN Ev => Ev.outs[1].host = Ev.rhost))
           /\ Tag("C05.reply-octets", ReplyOk(toks, out'.rsp[1], Ev.outs[1].raw))
           /\ Tag("C05.reply-delay", Ev.slept = IF trx'[Ev.t].delay > 0 THEN <<trx'[Ev.t].delay>> ELSE <<>>)
           /\ ProjOk
